@@ -172,8 +172,7 @@ def run(chk):
 
 # ---------------------------------------------------------------------------- stdout carries only the physics output
 
-ALLOWED_STDOUT = ('print_usage', 'get_cmd_line_options', 'print_error', 'Minimal_writer', 'Detailed_writer', 'SLHA_writer',
-                  'print_amu', 'main')
+ALLOWED_STDOUT = ('print_usage', 'get_cmd_line_options', 'print_error', 'Minimal_writer', 'Detailed_writer', 'SLHA_writer')
 
 
 def cout_census():
